@@ -1,9 +1,10 @@
 #!/bin/bash
 # usage: tools/run_seeded.sh <seed dir name under /verif/seeded> "<check ids>" [tier]
-# applies the seeded change to /repo, runs the given checks, reverts. Prints one line per check.
+# applies the seeded change to the repository ($VERIF_REPO, default /repo), runs the given checks, reverts. One line per check.
 seed=$1; ids="$2"; tier=${3:-quick}
+repo=${VERIF_REPO:-/repo}
 p=/verif/seeded/$seed/patch.diff
-cd /repo || exit 2
+cd $repo || exit 2
 if ! git diff --quiet; then echo "repo dirty"; exit 2; fi
 git apply $p 2>/dev/null || git apply -3 $p 2>/dev/null || { echo "$seed: patch does not apply"; git checkout HEAD -- . ; git reset -q; exit 2; }
 git reset -q 2>/dev/null
@@ -15,4 +16,4 @@ for id in $ids; do
   echo "$seed $id exit=$st violations_lines=$nv $first"
   [ $st = 2 ] && echo "$out" | tail -5
 done
-cd /repo && git checkout -- . && git status --short | grep -v '^??' | head -3
+cd $repo && git checkout -- . && git status --short | grep -v '^??' | head -3
